@@ -229,6 +229,28 @@ let handle (line : string) : string =
       | _ -> raise (Parse_error "bad witness types") in
     let w = lookup_fn wl in
     if wt_program jet_sig w a e then "true" else "false"
+  | "mjet", [ idx; argv ] ->
+    let j = n_of_int (int_of idx) in
+    (match jet_sig j with
+     | None -> "nosig"
+     | Some (_, ret) ->
+       (try
+          (match jet_oracle j (structural (value_of argv)) with
+           | None -> "fail"
+           | Some sv -> (match reconstruct ret sv with
+               | Some v -> to_string (tagged "some" [ sexp_of_value v ])
+               | None -> "badresult"))
+        with Unknown_jet _ -> "unknown"))
+  | "mwcons", [ vals; decl ] ->
+    let dl = match decl with
+      | List l -> List.map (function List [ n; t ] -> (intern (atom n), ty_of t) | _ -> raise (Parse_error "bad decl")) l
+      | _ -> raise (Parse_error "bad decl") in
+    if wit_consistent (bindings_of vals) (lookup_fn dl) then "true" else "false"
+  | "macons", [ vals; params ] ->
+    let pl = match params with
+      | List l -> List.map (function List [ n; t ] -> (intern (atom n), ty_of t) | _ -> raise (Parse_error "bad params")) l
+      | _ -> raise (Parse_error "bad params") in
+    if args_consistent (lookup_fn (bindings_of vals)) pl then "true" else "false"
   | "knownjets", [] ->
     let a = Lazy.force jets in
     let l = ref [] in
